@@ -223,16 +223,19 @@ fn ser_named_type(ty: &OwnedDataModelType, value: &Value, out: &mut Vec<u8>) -> 
                 ser_named_type(ty, b, out)?;
             }
         }
+        // A tuple struct with exactly one field is a newtype to serde: not an array, just the field
+        OwnedDataModelType::Struct {
+            name: _,
+            data: OwnedData::Tuple(tys),
+        } if tys.len() == 1 => {
+            ser_named_type(&tys[0], value, out)?;
+        }
         OwnedDataModelType::Tuple(tys)
         | OwnedDataModelType::Struct {
             name: _,
             data: OwnedData::Tuple(tys),
         } => {
-            // Tuples with arity of 1 are not arrays, but instead just a single object
-            if tys.len() == 1 {
-                return ser_named_type(&tys[0], value, out);
-            }
-
+            // Plain tuples and arrays are JSON arrays whatever their arity, `(5,)` is `[5]`
             let val = value.as_array().right()?;
 
             if val.len() != tys.len() {
